@@ -53,6 +53,7 @@ def run(ctx):
     ctx.rule("R02.c", "validators notify nobody: no function reachable from any Parameter type's _validate dispatches watchers (no _trigger_event/_call_watcher/flush, "
                       "no ListProxy notification scope, no mutator call on the objects proxy)", floor=30)
     ctx.rule("R02.m", "setter model: Parameter.__set__ interpreted abstractly on every combination (576) of route x constant/readonly x validation outcome x identity x reference mode x watchers x batching agrees with the specification of this property (see checks/setter_model.py)", floor=1)
+    ctx.rule("R02.u", "update model: Parameters._update interpreted abstractly (entry batching flag x key orders incl. an Event key x a rejected or unknown key at every position x a value identical to the current one, 60 cases): flag restored, flush exactly once iff outermost and after the restore, keys applied in order up to the failing one, Event mode and reset, complete previous-values mapping", floor=1)
     ctx.not_decided += ["that callees are effect-free before their own raises (Composite._post_setter assigns constituents one by one)",
                         "equality of the complete observable state before/after (needs execution)"]
     ctx.assumptions.append("frozen exclusion: the scheduling done inside _resolve_ref for coroutine references (there is no current value to reject)")
@@ -159,6 +160,9 @@ def run(ctx):
     # model-level rule, run last (see DESIGN §10)
     from checks import setter_model
     setter_model.report(ctx, "C02", "R02.m")
+
+    from checks import update_model
+    update_model.report(ctx, "C02", "R02.u")
 
 
 def _enclosing_fors(fnode, target):
